@@ -37,33 +37,36 @@ Proof.
   rewrite <- L at 1. rewrite take_app, IH, le_num_f_eq, le_bytes_f_eq, le_num_bytes by exact Hv. reflexivity.
 Qed.
 
-Theorem fixed_roundtrip k vs : Forall (fun v => v < 256 ^ N.of_nat k) vs ->
-  len (enc_fixed k vs) < 2 ^ 64 ->
+Lemma div_mul_exact a b : b <> 0 -> (b * a) / b = a.
+Proof. intros H. rewrite N.mul_comm. apply N.div_mul; exact H. Qed.
+
+Theorem fixed_roundtrip k vs : (0 < k)%nat -> Forall (fun v => v < 256 ^ N.of_nat k) vs ->
   dec_fixed k (enc_fixed k vs) (len vs) = Ok (vs, len (enc_fixed k vs)).
 Proof.
-  intros H B. unfold dec_fixed. rewrite enc_fixed_length in *.
-  rewrite (N.mul_comm (len vs)), size_t_small by exact B. rewrite N.ltb_irrefl.
-  rewrite len_nat. rewrite <- (app_nil_r (enc_fixed k vs)), read_fixed_enc by exact H. reflexivity.
+  intros Hk H. unfold dec_fixed. rewrite enc_fixed_length.
+  rewrite div_mul_exact by lia. rewrite N.ltb_irrefl.
+  rewrite len_nat. rewrite <- (app_nil_r (enc_fixed k vs)), read_fixed_enc by exact H.
+  rewrite (N.mul_comm (len vs)). reflexivity.
 Qed.
 
 Definition u32v (v : N) : Prop := v < 2 ^ 32.
 Definition u64v (v : N) : Prop := v < 2 ^ 64.
 
-Theorem plain_roundtrip_int32 vs : Forall u32v vs -> len (plain_encode_int32 vs) < 2 ^ 64 ->
+Theorem plain_roundtrip_int32 vs : Forall u32v vs ->
   plain_decode_int32 (plain_encode_int32 vs) (len vs) = Ok (vs, len (plain_encode_int32 vs)).
-Proof. apply (fixed_roundtrip 4). Qed.
+Proof. apply (fixed_roundtrip 4). lia. Qed.
 
-Theorem plain_roundtrip_float vs : Forall u32v vs -> len (plain_encode_float vs) < 2 ^ 64 ->
+Theorem plain_roundtrip_float vs : Forall u32v vs ->
   plain_decode_float (plain_encode_float vs) (len vs) = Ok (vs, len (plain_encode_float vs)).
-Proof. apply (fixed_roundtrip 4). Qed.
+Proof. apply (fixed_roundtrip 4). lia. Qed.
 
-Theorem plain_roundtrip_int64 vs : Forall u64v vs -> len (plain_encode_int64 vs) < 2 ^ 64 ->
+Theorem plain_roundtrip_int64 vs : Forall u64v vs ->
   plain_decode_int64 (plain_encode_int64 vs) (len vs) = Ok (vs, len (plain_encode_int64 vs)).
-Proof. apply (fixed_roundtrip 8). Qed.
+Proof. apply (fixed_roundtrip 8). lia. Qed.
 
-Theorem plain_roundtrip_double vs : Forall u64v vs -> len (plain_encode_double vs) < 2 ^ 64 ->
+Theorem plain_roundtrip_double vs : Forall u64v vs ->
   plain_decode_double (plain_encode_double vs) (len vs) = Ok (vs, len (plain_encode_double vs)).
-Proof. apply (fixed_roundtrip 8). Qed.
+Proof. apply (fixed_roundtrip 8). lia. Qed.
 
 Example plain_roundtrip_int32_ex :
   plain_decode_int32 (plain_encode_int32 [1; 0xFFFFFFFF; 0x80000000]) 3 = Ok ([1; 0xFFFFFFFF; 0x80000000], 12).
@@ -93,16 +96,14 @@ Proof.
   cbn [flat3]. repeat constructor; assumption.
 Qed.
 
-Theorem plain_roundtrip_int96 vs : Forall u96v vs -> len (plain_encode_int96 vs) < 2 ^ 64 ->
+Theorem plain_roundtrip_int96 vs : Forall u96v vs ->
   plain_decode_int96 (plain_encode_int96 vs) (len vs) = Ok (vs, len (plain_encode_int96 vs)).
 Proof.
-  intros H B. unfold plain_decode_int96. rewrite int96_as_fixed in *. rewrite enc_fixed_length in *.
-  unfold len in B at 1. rewrite flat3_length in B.
-  assert (E : len vs * 12 = N.of_nat 4 * len (flat3 vs)).
-  { unfold len. rewrite flat3_length. lia. }
-  rewrite E, size_t_small by (unfold len; rewrite flat3_length; lia). rewrite N.ltb_irrefl.
+  intros H. unfold plain_decode_int96. rewrite int96_as_fixed. rewrite enc_fixed_length.
+  assert (E : N.of_nat 4 * len (flat3 vs) = 12 * len vs) by (unfold len; rewrite flat3_length; lia).
+  rewrite E, div_mul_exact by discriminate. rewrite N.ltb_irrefl.
   rewrite len_nat, <- flat3_length, <- (app_nil_r (enc_fixed 4 (flat3 vs))), read_fixed_enc by (apply flat3_ok; exact H).
-  rewrite triples_flat3. reflexivity.
+  rewrite triples_flat3. f_equal. f_equal. lia.
 Qed.
 
 (** ** BOOLEAN *)
@@ -213,12 +214,12 @@ Example plain_roundtrip_byte_array_ex :
 Proof. vm_compute. reflexivity. Qed.
 
 (** ** FIXED_LEN_BYTE_ARRAY: [raw] is the image of [count] values of [flen] bytes *)
-Theorem plain_roundtrip_flba raw count flen : flen <> 0 -> len raw = count * flen -> len raw < 2 ^ 64 ->
+Theorem plain_roundtrip_flba raw count flen : flen <> 0 -> len raw = count * flen ->
   plain_decode_flba (plain_encode_flba raw) count flen = Ok (raw, len (plain_encode_flba raw)).
 Proof.
-  intros Hf E B. unfold plain_decode_flba, plain_encode_flba.
+  intros Hf E. unfold plain_decode_flba, plain_encode_flba.
   destruct (N.eqb_spec flen 0) as [->|_]; [contradiction|].
-  rewrite <- E, size_t_small by exact B. rewrite N.ltb_irrefl, len_nat.
+  rewrite E, N.div_mul by exact Hf. rewrite N.ltb_irrefl. rewrite <- E, len_nat.
   rewrite take_some by lia. rewrite firstn_all. reflexivity.
 Qed.
 
@@ -251,14 +252,14 @@ Proof.
     rewrite (take_len _ _ _ _ T), L. lia.
 Qed.
 
-Theorem plain_fixed_decode_accepts k n bs vs rest :
-  spec_fixed_dec k n bs = Some (vs, rest) -> N.of_nat k * N.of_nat n < 2 ^ 64 ->
+Theorem plain_fixed_decode_accepts k n bs vs rest : (0 < k)%nat ->
+  spec_fixed_dec k n bs = Some (vs, rest) ->
   dec_fixed k bs (N.of_nat n) = Ok (vs, N.of_nat k * N.of_nat n).
 Proof.
-  intros H B. destruct (read_fixed_spec _ _ _ _ _ H) as [R L]. unfold dec_fixed.
-  rewrite (N.mul_comm (N.of_nat n)), size_t_small by exact B.
-  assert (E : (len bs <? N.of_nat k * N.of_nat n) = false) by (apply N.ltb_ge; lia).
-  rewrite E, Nat2N.id, R. reflexivity.
+  intros Hk H. destruct (read_fixed_spec _ _ _ _ _ H) as [R L]. unfold dec_fixed.
+  assert (E : (len bs / N.of_nat k <? N.of_nat n) = false).
+  { apply N.ltb_ge. rewrite L. apply N.div_le_lower_bound; [lia|]. lia. }
+  rewrite E, Nat2N.id, R. rewrite N.mul_comm. reflexivity.
 Qed.
 
 Lemma dec_bas_spec n bs vs rest : spec_ba_dec n bs = Some (vs, rest) -> dec_bas bs n = Ok (vs, rest).
@@ -314,32 +315,41 @@ Proof.
   rewrite E. eexists; split; [reflexivity|]. cbn [length]. rewrite L. reflexivity.
 Qed.
 
-(** [count * k < 2^64]: otherwise the size_t product wraps and the element loop of the C code (taken on big-endian
-    or strict-alignment builds; INT96 always) would run past the checked size - but an output array of [count]
-    elements cannot exist then *)
-Theorem plain_fixed_never_faults k bs count : count * N.of_nat k < 2 ^ 64 ->
-  forall f, dec_fixed k bs count <> Fault f.
+Lemma div_le_mul a b c : b <> 0 -> c <= a / b -> c * b <= a.
+Proof. intros Hb H. pose proof (N.mul_div_le a b Hb). nia. Qed.
+
+Theorem plain_fixed_never_faults k bs count : forall f, dec_fixed k bs count <> Fault f.
 Proof.
-  intros B f. unfold dec_fixed. rewrite size_t_small by exact B.
-  destruct (len bs <? count * N.of_nat k) eqn:E; [discriminate|]. apply N.ltb_ge in E.
-  destruct (read_fixed_no_fault k (N.to_nat count) bs) as [vs [R _]]; [unfold len in E; nia|].
-  rewrite R. discriminate.
+  intros f. unfold dec_fixed. destruct (N.eq_dec (N.of_nat k) 0) as [Z|NZ].
+  - assert (k = 0)%nat as -> by lia.
+    destruct (_ <? count); [discriminate|].
+    assert (G : forall n bs, read_fixed 0 n bs = Ok (repeat 0 n)).
+    { clear. induction n; intros bs; cbn [read_fixed take repeat]; [reflexivity|]. rewrite IHn. reflexivity. }
+    rewrite G. discriminate.
+  - destruct (len bs / N.of_nat k <? count) eqn:E; [discriminate|]. apply N.ltb_ge in E.
+    pose proof (div_le_mul _ _ _ NZ E) as M.
+    destruct (read_fixed_no_fault k (N.to_nat count) bs) as [vs [R _]]; [unfold len in M; nia|].
+    rewrite R. discriminate.
 Qed.
 
-Theorem plain_fixed_result_size k bs count vs c : dec_fixed k bs count = Ok (vs, c) ->
-  count * N.of_nat k < 2 ^ 64 -> len vs = count /\ c <= len bs.
+Theorem plain_fixed_result_size k bs count vs c : (0 < k)%nat -> dec_fixed k bs count = Ok (vs, c) ->
+  len vs = count /\ c <= len bs.
 Proof.
-  unfold dec_fixed. intros H B. rewrite size_t_small in H by exact B.
-  destruct (len bs <? count * N.of_nat k) eqn:E; [discriminate|]. apply N.ltb_ge in E.
-  destruct (read_fixed_no_fault k (N.to_nat count) bs) as [vs' [R L]]; [unfold len in E; nia|].
-  rewrite R in H. injection H as <- <-. split; [unfold len; rewrite L; lia|exact E].
+  unfold dec_fixed. intros Hk H.
+  destruct (len bs / N.of_nat k <? count) eqn:E; [discriminate|]. apply N.ltb_ge in E.
+  assert (NZ : N.of_nat k <> 0) by lia.
+  pose proof (div_le_mul _ _ _ NZ E) as M.
+  destruct (read_fixed_no_fault k (N.to_nat count) bs) as [vs' [R L]]; [unfold len in M; nia|].
+  rewrite R in H. injection H as <- <-. split; [unfold len; rewrite L; lia|exact M].
 Qed.
 
-Theorem plain_int96_never_faults bs count : count * 12 < 2 ^ 64 -> forall f, plain_decode_int96 bs count <> Fault f.
+Theorem plain_int96_never_faults bs count : forall f, plain_decode_int96 bs count <> Fault f.
 Proof.
-  intros B f. unfold plain_decode_int96. rewrite size_t_small by exact B.
-  destruct (len bs <? count * 12) eqn:E; [discriminate|]. apply N.ltb_ge in E.
-  destruct (read_fixed_no_fault 4 (3 * N.to_nat count) bs) as [vs [R _]]; [unfold len in E; lia|].
+  intros f. unfold plain_decode_int96.
+  destruct (len bs / 12 <? count) eqn:E; [discriminate|]. apply N.ltb_ge in E.
+  assert (NZ : 12 <> 0) by discriminate.
+  pose proof (div_le_mul _ _ _ NZ E) as M.
+  destruct (read_fixed_no_fault 4 (3 * N.to_nat count) bs) as [vs [R _]]; [unfold len in M; lia|].
   rewrite R. discriminate.
 Qed.
 
@@ -390,7 +400,8 @@ Qed.
 
 Theorem plain_flba_never_faults bs count flen : forall f, plain_decode_flba bs count flen <> Fault f.
 Proof.
-  intros f. unfold plain_decode_flba. destruct (flen =? 0); [discriminate|].
-  destruct (len bs <? size_t (count * flen)) eqn:E; [discriminate|]. apply N.ltb_ge in E.
-  rewrite take_some by (unfold len in E; lia). discriminate.
+  intros f. unfold plain_decode_flba. destruct (N.eqb_spec flen 0) as [|NZ]; [discriminate|].
+  destruct (len bs / flen <? count) eqn:E; [discriminate|]. apply N.ltb_ge in E.
+  pose proof (div_le_mul _ _ _ NZ E) as M.
+  rewrite take_some by (unfold len in M; lia). discriminate.
 Qed.
